@@ -217,6 +217,9 @@ def gen_post_spec(rng, backend):
         d["target"] = rng.randrange(n)
         d["select"] = rng.random() < 0.5
         d["angle"] = round(rng.uniform(-1, 1), 3)
+        # a history with deleted modes: possibly only the measured mode survives
+        others = [m for m in range(n) if m != d["target"]]
+        d["deleted"] = sorted(rng.sample(others, rng.randint(0, len(others)))) if rng.random() < 0.5 else []
     elif kind == "fock":
         d["targets"] = rng.sample(range(n), rng.randint(1, n))
     else:
@@ -279,8 +282,15 @@ def eval_post_spec(d):
             op = _ops.MeasureHomodyne(d["angle"], select=0.3 if sel else None)
         else:
             op = _ops.MeasureHeterodyne(select=(0.2 + 0.1j) if sel else None)
-        st = _engine(backend).run(_build(n, pre, lambda q: op | q[t])).state
-        v = _vac_and_uncorrelated(st, backend, [t], n, tol if not fock else 2e-2)
+        deleted = d.get("deleted", [])
+
+        def tail(q):
+            for m in deleted:
+                _ops.Del | q[m]
+            op | q[t]
+        st = _engine(backend).run(_build(n, pre, tail)).state
+        live = [m for m in range(n) if m not in deleted]
+        v = _vac_and_uncorrelated(st, backend, [live.index(t)], len(live), tol if not fock else 2e-2)
         return "measure:%s:%s:%s" % (backend.split("-")[0], kind, v) if v else None
     if kind == "fock":
         targets = d["targets"]
